@@ -43,6 +43,8 @@ BASES = [
     'x = """\ndef f():\n    pass\n"""\ndef g():\n    """doc\n    more\n    """\n    return x\n',
     '@a\n@b\ndef f(): pass\n@c\nclass D: pass\n@e\nasync def g(): pass\n',
     '@dec\nasync def f():\n    a\nx\n',
+    'class C:\n    def f(self):\n        a = 1\n        b = 2\n        c = 3\n    x = 1\n        z = 0\n    y = 2\n',
+    'def f():\n    if a:\n        b = (1,\n             2)\n      c\n    else:\n        d\n   e\nclass G:\n  h = 1\n      i = 2\n',
     'class K:\n    @dec\n    async def m(self):\n        a\n    y = 1\n@d2\nasync def g():\n    async with a:\n        pass\n@d3\nclass L:\n    z\n',
 ]
 FRAGMENTS = ['(', ')', '"""', ':', '#', ' ', '\n', "f'{"]
@@ -50,8 +52,14 @@ EDIT_LINES = ['def n():\n', '    q = 1\n', 'class N:\n', '(\n', ')\n', '"""\n', 
               '        return\n', 'x']
 
 
+EXTRA_POOLS = {
+    # lines whose prefixes carry style issues (comments, trailing blanks, blank lines): used by C20's provenance family
+    'P': ['x = 1  #c\n', 'y = 2 \n', 'def f():\n', '    z\n', '\n', '# c\n', 'a=1\n', '\tw = 3\n'],
+}
+
+
 def pool_texts(pool, k):
-    lines = POOLS[pool]
+    lines = POOLS.get(pool) or EXTRA_POOLS[pool]
     texts = []
     for n in range(0, k + 1):
         for tup in itertools.product(lines, repeat=n):
